@@ -9,6 +9,7 @@ after every step is captured and compared bit for bit.
 from __future__ import annotations
 
 import copy
+import os
 from datetime import datetime, timedelta
 
 import numpy as np
@@ -172,6 +173,49 @@ def eval_pair(ctx, net, variant, rng_seed):
     return steps_a >= 2 and len(common) > 0
 
 
+def real_ray_pair(ctx, net):
+    """Same scenario on the stand-in (in process) and on the real Ray executor (worker processes)."""
+    import json
+    import os
+    import subprocess
+    import sys
+    import tempfile
+
+    from .. import core
+
+    a, ka, _b, _kb = make_pair(net, "truth_only", __import__("random").Random(0))
+    ta, ea = trajectory(a, net["nsteps"], **ka)
+    if ea:
+        return
+    d = tempfile.mkdtemp(prefix="rvmon-rr-")
+    cfgp, outp = os.path.join(d, "cfg.json"), os.path.join(d, "out.json")
+    json.dump(a, open(cfgp, "w"))
+    env = dict(os.environ)
+    env.pop("RESONAATE_VERIF", None)
+    env["PYTHONPATH"] = str(core.VERIF)
+    try:
+        r = subprocess.run([sys.executable, "-m", "rvmon.realray_run", cfgp, str(net["nsteps"]), outp], cwd=str(core.VERIF), env=env, capture_output=True, text=True, timeout=420)
+    except subprocess.TimeoutExpired:
+        ctx.count("real_ray_timeouts")
+        return
+    if r.returncode != 0 or not os.path.exists(outp):
+        ctx.count("real_ray_failed_to_run")
+        ctx.note("real_ray_last_error", (r.stderr or "")[-300:])
+        return
+    real = json.load(open(outp))["traj"]
+    mine = {f"{k[0]}:{k[1]}": v.hex() for k, v in ta.items()}
+    common = sorted(set(real) & set(mine))
+    bad = [k for k in common if real[k] != mine[k]]
+    ctx.mon("real_ray_pairs")
+    # a disagreement here is a harness inconsistency (stand-in vs real executor), reported as inconclusive
+    if bad or not common:
+        ctx.inconclusive_because(f"ray stand-in and real Ray disagree on truth states at {bad[:3]} ({len(bad)}/{len(common)})")
+    ctx.count("real_ray_states_compared", len(common))
+    import shutil
+
+    shutil.rmtree(d, ignore_errors=True)
+
+
 def run(ctx):
     rng = ctx.pyrng("c10")
     n = ctx.scale(64, 1200)
@@ -185,6 +229,10 @@ def run(ctx):
         net["nsteps"] = rng.randrange(2, 6)
         net["save_filter_steps"] = False
         net["init_pos_std"] = 1e-3
+        if i == 0 and ctx.shard == 0 and (not ctx.quick or os.environ.get("VERIF_REALRAY")):
+            net2 = dict(net)
+            net2["nsteps"] = 3
+            real_ray_pair(ctx, net2)
         variant = VARIANTS[(i * ctx.nshards + ctx.shard) % len(VARIANTS)] if ctx.quick else rng.choice(VARIANTS)
         seed = rng.randrange(1 << 30)
         ok = eval_pair(ctx, net, variant, seed)
